@@ -36,7 +36,13 @@ def rt_env():
     env = dict(os.environ)
     env["PYTHONPATH"] = REPO_SRC + os.pathsep + VERIF
     env["TRAFFIC_WEAVER_VERIF"] = "1"
+    env["PYVC_RT_KNOWN"] = os.path.join(VERIF, "known_findings.json")
+    if RT_CLAUSES:
+        env["PYVC_RT_CLAUSES"] = RT_CLAUSES
     return env
+
+
+RT_CLAUSES = None      # regex of the bounded (assumed=) clause names that belong to the property being checked
 
 
 def rt_search(contract_file, qual, seed, n, out, timeout=120):
@@ -85,6 +91,8 @@ def main():
         print(f"unknown property {pid}")
         return 3
     P = props[pid]
+    global RT_CLAUSES
+    RT_CLAUSES = P.get('monitor_clauses')
     os.makedirs(os.path.join(VERIF, "evidence"), exist_ok=True)
     os.makedirs(os.path.join(VERIF, "out", "replays"), exist_ok=True)
     try:
@@ -203,7 +211,7 @@ def run(pid, P, a, seed, t0):
         if all(o.status == "unsat" for o in os_):
             print(f"CHECKER-ERROR property={pid}: vacuous contract - every {k} path of {f} is infeasible")
             return 3
-    if not real:
+    if not real and not degraded:
         print(f"CHECKER-ERROR property={pid}: zero obligations generated")
         return 3
 
@@ -235,6 +243,7 @@ def run(pid, P, a, seed, t0):
     undecided = []
     known_hit = []
     rt_stats = dict(searches=0, inputs_tried=0, inputs_valid=0)
+    rt_known = {}
 
     def search_input(func, tag, seeds=(0, 1, 2), n=1500):
         c = db.get(func)
@@ -249,6 +258,8 @@ def run(pid, P, a, seed, t0):
             if d:
                 rt_stats["inputs_tried"] += d.get("tried", 0)
                 rt_stats["inputs_valid"] += d.get("valid", 0)
+                for kid, cnt in (d.get("known_hits") or {}).items():
+                    rt_known[kid] = rt_known.get(kid, 0) + cnt
             if d and d.get("status") == "violation":
                 return out, d
             if os.path.exists(out):
@@ -370,6 +381,14 @@ def run(pid, P, a, seed, t0):
             print(f"   {o.status:8s} {o.time_ms or 0:8.0f}ms {o.name}")
     for k, line in known_hit:
         print(f"KNOWN-FINDING: property={pid} {k['what']} [{line}]")
+    # listed findings of the run-time monitor: the committed witness is replayed natively and must still fail
+    for k in [k for k in json.load(open(os.path.join(VERIF, "known_findings.json"))).get("findings", [])
+              if k.get("status") == "known" and "match" in k and pid in k.get("properties", [k.get("property")])]:
+        rc, out = rt_replay(os.path.join(VERIF, k["witness"]))
+        if rc == 1:
+            print(f"KNOWN-FINDING: property={pid} {k['what']} [witness {k['witness']} still fails; {rt_known.get(k['id'], 0)} further generated inputs of the same kind skipped]")
+        elif rt_known.get(k["id"]):
+            print(f"KNOWN-FINDING: property={pid} {k['what']} [{rt_known[k['id']]} generated inputs of this kind]")
     for o in failed:
         print(f"   failed: {o.status} {o.name}")
     for q, why in degraded:
@@ -379,6 +398,7 @@ def run(pid, P, a, seed, t0):
             print(f"CHECKER-ERROR property={pid}: {q}: {e}")
         return 3
     if violations:
+        violations.sort(key=lambda v: not v[2])       # a violation with a replayable input first
         for path, ob, concrete in violations[:1]:
             rel = os.path.relpath(path, VERIF)
             print(f"VIOLATION property={pid} replay={rel}" + ("" if concrete else " no-failing-input-found"))
